@@ -137,6 +137,105 @@ pub fn bar_screen(_args: &[String]) -> String {
     format!("{{\"found\": false, \"tried\": {}}}", tried)
 }
 
+/// C01 / C03 / C04 after the end and at the edges of a single bar's life: a finished bar keeps behaving (suspend, println and
+/// later updates leave printed lines above one copy of the final frame), a template that renders to nothing wipes the old
+/// frame, and ordinary output written after a completed draw starts on a fresh line below the frame (also below a last line
+/// that wraps).
+pub fn bar_after(_args: &[String]) -> String {
+    std::panic::set_hook(Box::new(|_| {}));
+    let mut tried = 0u64;
+    // (i) a rendering that shrinks to nothing
+    for with_log in [false, true] {
+        let term = InMemoryTerm::new(H, W as u16);
+        let pb = ProgressBar::with_draw_target(Some(10), ProgressDrawTarget::term_like(Box::new(term.clone())));
+        pb.set_style(ProgressStyle::with_template("{prefix}{msg}").unwrap());
+        let mut hist = vec!["bar with template {prefix}{msg}".to_string()];
+        let mut logs: Vec<String> = vec![];
+        if with_log { pb.println("log line"); logs.push("log line".into()); hist.push("println(log line)".into()); }
+        for m in ["downloading index", "", "compiling", "", ""] {
+            pb.set_message(m);
+            hist.push(format!("set_message({:?})", m));
+            tried += 1;
+            let mut rows = logs.clone();
+            if !m.is_empty() { rows.push(m.to_string()); }
+            let want = rows.join("\n");
+            let got = term.contents();
+            if got != want {
+                return report("C01 a rendering that shrinks (here: to nothing) leaves no residue of the earlier frame", &hist, &want, &got, "bar_after");
+            }
+        }
+    }
+    // (ii) life after finishing, (iii) where ordinary output lands
+    for msg in ["", "short", LONG, "two\nlines"] {
+        for fin in 0..5 {
+            for later in 0..4 {
+                let term = InMemoryTerm::new(H, W as u16);
+                let pb = mk(&term, Some(10), None);
+                let mut m = Model { logs: vec![], msg: msg.to_string(), pos: 3, len: Some(10), cleared: false };
+                let mut hist = vec![format!("bar len=10 template [{{msg}}]\\n{{pos}}/{{len}}; set_message({:?}); set_position(3)", msg)];
+                pb.set_message(msg.to_string());
+                pb.set_position(3);
+                match fin {
+                    0 => { pb.finish(); m.pos = 10; }
+                    1 => { pb.finish_with_message("done"); m.msg = "done".into(); m.pos = 10; }
+                    2 => { pb.finish_and_clear(); m.cleared = true; m.pos = 10; }
+                    3 => pb.abandon(),
+                    _ => { pb.abandon_with_message("gone"); m.msg = "gone".into(); }
+                }
+                hist.push(["finish", "finish_with_message(done)", "finish_and_clear", "abandon", "abandon_with_message(gone)"][fin].to_string());
+                match later {
+                    0 => { let t = term.clone(); pb.suspend(|| { let _ = t.write_line("from suspend"); }); m.logs.push("from suspend".into()); hist.push("suspend(|| write_line(from suspend))".into()); }
+                    1 => { pb.println("late log"); m.logs.push("late log".into()); hist.push("println(late log)".into()); }
+                    2 => { pb.set_message("later"); m.msg = "later".into(); hist.push("set_message(later)".into()); }
+                    _ => {}
+                }
+                tried += 1;
+                let got = term.contents();
+                if got != m.screen() {
+                    return report("C01/C03/C04 a finished bar: printed lines and the closure's output stay above ONE copy of the final frame", &hist, &m.screen(), &got, "bar_after");
+                }
+                if later == 0 {
+                    pb.println("after suspend"); m.logs.push("after suspend".into()); hist.push("println(after suspend)".into());
+                    tried += 1;
+                    let got = term.contents();
+                    if got != m.screen() {
+                        return report("C03 lines written by the suspend closure of a finished bar survive the next draw", &hist, &m.screen(), &got, "bar_after");
+                    }
+                }
+                // ordinary output after the last completed draw starts on a fresh line below the frame
+                let _ = term.write_str("X");
+                hist.push("the program writes X".into());
+                let want = if m.screen().is_empty() { "X".to_string() } else { format!("{}\nX", m.screen()) };
+                tried += 1;
+                let got = term.contents();
+                if got != want {
+                    return report("C01 ordinary output written after a completed draw starts on a fresh line below the frame", &hist, &want, &got, "bar_after");
+                }
+            }
+        }
+    }
+    // a last bar line that wraps: the cursor still rests at the end of its last row
+    for cols in [41usize, 79, 80, 81] {
+        let term = InMemoryTerm::new(H, W as u16);
+        let pb = ProgressBar::with_draw_target(Some(10), ProgressDrawTarget::term_like(Box::new(term.clone())));
+        pb.set_style(ProgressStyle::with_template("{msg}").unwrap());
+        let text = "m".repeat(cols);
+        pb.set_message(text.clone());
+        pb.abandon();
+        let _ = term.write_str("X");
+        tried += 1;
+        let mut rows = wrap(&text);
+        rows.push("X".into());
+        let want = rows.join("\n");
+        let got = term.contents();
+        if got != want {
+            let hist = vec![format!("bar with template {{msg}}, a message of {} columns on a 40-column terminal; abandon; the program writes X", cols)];
+            return report("C01 ordinary output written after a completed draw starts on a fresh line, also below a last line that wraps", &hist, &want, &got, "bar_after");
+        }
+    }
+    format!("{{\"found\": false, \"tried\": {}}}", tried)
+}
+
 /// C04 / C05: with the limiter exhausted, finishing (and dropping an unfinished bar) still paints the final state;
 /// println and suspend are forced too (C03).
 pub fn bar_forced(_args: &[String]) -> String {
@@ -383,10 +482,10 @@ pub fn multi_logs(_args: &[String]) -> String {
     std::panic::set_hook(Box::new(|_| {}));
     let mut tried = 0u64;
     let texts = ["", "text", "two\nlines"];
-    // op = (who, text): who 0 = mp.println, 1..=3 = bar_i.println, 4 = bar0.set_message + tick, 5 = bar2.inc
-    for a in 0..6 {
-        for b in 0..6 {
-            for c in 0..6 {
+    // op = (who, text): who 0 = mp.println, 1..=3 = bar_i.println, 4 = bar0.set_message + tick, 5 = bar2.inc, 6 = mp.clear
+    for a in 0..7 {
+        for b in 0..7 {
+            for c in 0..7 {
                 for ti in 0..texts.len() {
                     let term = InMemoryTerm::new(H, W as u16);
                     let mp = MultiProgress::with_draw_target(ProgressDrawTarget::term_like(Box::new(term.clone())));
@@ -406,7 +505,8 @@ pub fn multi_logs(_args: &[String]) -> String {
                             0 => { let _ = mp.println(t); logs.push(t.to_string()); hist.push(format!("mp.println({:?})", t)); }
                             1 | 2 | 3 => { bars[op - 1].println(t); logs.push(t.to_string()); hist.push(format!("bar{}.println({:?})", op - 1, t)); }
                             4 => { bars[0].set_message("renamed"); msgs[0] = "renamed".into(); hist.push("bar0.set_message(renamed)".into()); }
-                            _ => { bars[2].inc(1); pos[2] += 1; hist.push("bar2.inc(1)".into()); }
+                            5 => { bars[2].inc(1); pos[2] += 1; hist.push("bar2.inc(1)".into()); }
+                            _ => { let _ = mp.clear(); hist.push("mp.clear() (the ticks that follow repaint the bars)".into()); }
                         }
                         for pb in bars.iter() {
                             pb.tick();
@@ -487,6 +587,70 @@ pub fn multi_bottom(_args: &[String]) -> String {
     for a in 0..12 { for b in 0..12 { for c in 0..12 { for d in 0..12 {
         if let Some(r) = run(&[a, b, c, d], &mut tried) { return r; }
     }}}}
+    format!("{{\"found\": false, \"tried\": {}}}", tried)
+}
+
+/// C19 / C03 / C02: more rows of bars than the terminal has: only the leading bar lines that fit are painted, nothing above the
+/// region is touched by later redraws, omitted bars appear as soon as there is room.  One-row, two-row (explicit newline) and
+/// wrapping bars on terminals of 3..=6 rows, with a printed line above.
+pub fn multi_overflow(_args: &[String]) -> String {
+    std::panic::set_hook(Box::new(|_| {}));
+    let mut tried = 0u64;
+    for height in 3u16..=6 {
+        for kind in 0..3 {
+            for nbars in 2usize..=4 {
+                let term = InMemoryTerm::new(height, 10);
+                let mp = MultiProgress::with_draw_target(ProgressDrawTarget::term_like(Box::new(term.clone())));
+                let _ = mp.println("log");
+                let mut hist = vec![format!("{}x10 terminal; mp.println(log)", height)];
+                // rows of one bar
+                let rows_of = |i: usize, pos: u64| -> Vec<String> {
+                    match kind {
+                        0 => vec![format!("b{} {}", i, pos)],
+                        1 => vec![format!("b{} top", i), format!("b{} {}", i, pos)],
+                        _ => { let t = format!("b{}-wraps-over {}", i, pos); vec![t[..10].to_string(), t[10..].to_string()] }
+                    }
+                };
+                let bars: Vec<ProgressBar> = (0..nbars).map(|i| {
+                    let pb = mp.add(ProgressBar::new(10));
+                    let t = match kind { 0 => format!("b{} {{pos}}", i), 1 => format!("b{} top\nb{} {{pos}}", i, i), _ => format!("b{}-wraps-over {{pos}}", i) };
+                    pb.set_style(ProgressStyle::with_template(&t).unwrap());
+                    pb
+                }).collect();
+                hist.push(format!("{} bars of {} row(s) each", nbars, if kind == 0 { 1 } else { 2 }));
+                let mut pos = vec![0u64; nbars];
+                for round in 0..3 {
+                    for (i, pb) in bars.iter().enumerate() {
+                        if round > 0 { pb.inc(1); pos[i] += 1; } else { pb.tick(); }
+                    }
+                    hist.push(if round == 0 { "tick every bar".to_string() } else { "inc(1) on every bar".to_string() });
+                    tried += 1;
+                    // leading bar LINES that fit into the terminal height (the crate stops at the first line that does not
+                    // fit; a line that wraps counts with all its rows)
+                    let mut shown: Vec<String> = vec![];
+                    let mut used = 0usize;
+                    'outer: for i in 0..nbars {
+                        let r = rows_of(i, pos[i]);
+                        let lines: Vec<Vec<String>> = if kind == 2 { vec![r] } else { r.into_iter().map(|x| vec![x]).collect() };
+                        for l in lines {
+                            if used + l.len() > height as usize { break 'outer; }
+                            used += l.len();
+                            shown.extend(l);
+                        }
+                    }
+                    // what is visible: the emulator shows the last `height` rows of [log ++ shown]
+                    let mut all = vec!["log".to_string()];
+                    all.extend(shown);
+                    let skip = all.len().saturating_sub(height as usize);
+                    let want = all[skip..].join("\n");
+                    let got = term.contents();
+                    if got != want {
+                        return report("C19 only the leading bars that fit are painted and redraws erase exactly their rows (C03: the printed line above is not touched)", &hist, &want, &got, "multi_overflow");
+                    }
+                }
+            }
+        }
+    }
     format!("{{\"found\": false, \"tried\": {}}}", tried)
 }
 
